@@ -1133,6 +1133,42 @@ package gohlslib
 //@ end
 
 // ---------------------------------------------------------------------------------------
+// C05: the HTTP handlers of published objects answer 200 with the right media type and the object's own bytes,
+// or 500 when the storage cannot be read; nothing else
+//@ func muxerStream.rotateParts$1
+//@   props C05
+//@   nosafety
+//@   noframe
+//@   nocallpre
+//@   ensures calls("muxerPart.reader") == 1 && callarg("muxerPart.reader", 0, 0) == part && calls("invoke.WriteHeader") == 1 && calls("io.Copy") <= 1
+//@   ensures calls("io.Copy") == 0 ==> callarg("invoke.WriteHeader", 0, 1) == 500
+//@   ensures calls("io.Copy") == 1 ==> (callarg("invoke.WriteHeader", 0, 1) == 200 && calls("http.Header.Set") == 2
+//@        && ((callarg("http.Header.Set", 0, 1) == "Content-Type" && callarg("http.Header.Set", 0, 2) == "video/mp4")
+//@         || (callarg("http.Header.Set", 1, 1) == "Content-Type" && callarg("http.Header.Set", 1, 2) == "video/mp4")))
+//@ end
+
+//@ func muxerStream.rotateSegments$1
+//@   props C05
+//@   nosafety
+//@   noframe
+//@   nocallpre
+//@   ensures calls("muxerSegmentFMP4.reader") + calls("muxerSegmentMPEGTS.reader") + calls("muxerGap.reader") == 1 && calls("invoke.WriteHeader") == 1 && calls("io.Copy") <= 1
+//@   ensures calls("io.Copy") == 0 ==> callarg("invoke.WriteHeader", 0, 1) == 500
+//@   ensures calls("io.Copy") == 1 ==> (callarg("invoke.WriteHeader", 0, 1) == 200 && calls("http.Header.Set") == 2
+//@        && ((callarg("http.Header.Set", 0, 1) == "Content-Type" && callarg("http.Header.Set", 0, 2) == ite(s.variant == MuxerVariantMPEGTS, "video/MP2T", "video/mp4"))
+//@         || (callarg("http.Header.Set", 1, 1) == "Content-Type" && callarg("http.Header.Set", 1, 2) == ite(s.variant == MuxerVariantMPEGTS, "video/MP2T", "video/mp4"))))
+//@ end
+
+//@ func muxerStream.generateAndCacheInitFile$1
+//@   props C05
+//@   nosafety
+//@   noframe
+//@   ensures calls("invoke.WriteHeader") == 1 && callarg("invoke.WriteHeader", 0, 1) == 200 && calls("invoke.Write") == 1 && callarg("invoke.Write", 0, 1) == ref(initFile)
+//@   ensures calls("http.Header.Set") == 2 && ((callarg("http.Header.Set", 0, 1) == "Content-Type" && callarg("http.Header.Set", 0, 2) == "video/mp4")
+//@         || (callarg("http.Header.Set", 1, 1) == "Content-Type" && callarg("http.Header.Set", 1, 2) == "video/mp4"))
+//@ end
+
+// ---------------------------------------------------------------------------------------
 // C10 / C11 / C13: client (sequential logic; goroutines, channels and HTTP are outside the VCs)
 
 //@ func fmp4PickLeadingTrack
